@@ -718,7 +718,17 @@ for timecode in (False, True):
         c._sock.sent.clear()
         c.send_message(cls(), dest_mod_id=0)
         hdr = c.header_cls.from_buffer_copy(c._sock.sent[0][: __import__("ctypes").sizeof(c.header_cls)])
-        out.setdefault(n, {"type_hash": cls.type_hash, "type_id": cls.type_id, "versions": []})["versions"].append(hdr.version)
+        out.setdefault(n, {"type_hash": cls.type_hash, "type_id": cls.type_id, "versions": [], "signal_versions": []})["versions"].append(hdr.version)
+        # a signal of ANOTHER type sent right after it: its version field is that other type's hash or 0, never this one's
+        other = names[(names.index(n) + 1) % len(names)]
+        ocls = getattr(mod, "MDF_" + other)
+        c._sock.sent.clear()
+        try:
+            c.send_signal(ocls.type_id)
+            h2 = c.header_cls.from_buffer_copy(c._sock.sent[0][: __import__("ctypes").sizeof(c.header_cls)])
+            out[n]["signal_versions"].append([other, h2.version, ocls.type_hash])
+        except Exception as e:
+            out[n]["signal_versions"].append([other, "raised " + type(e).__name__, ocls.type_hash])
 print(json.dumps(out))
 '''
 
@@ -786,6 +796,7 @@ def outputs_check(tree: Dict[str, Any], names: List[str]) -> Dict[str, Any]:
             for n in names:
                 res[n]["py"] = got[n]["type_hash"]
                 res[n]["versions"] = got[n]["versions"]
+                res[n]["signal_versions"] = got[n].get("signal_versions", [])
         return res
     finally:
         os.chdir(cwd)
